@@ -1,5 +1,6 @@
 """C18 — service lifecycle: complete reverse-order shutdown and faithful refresh loop."""
 import json
+import os
 
 from vlib.core import write_cfg, validate_trace, count_lines, CheckerError
 
@@ -75,6 +76,18 @@ def run(ctx):
               properties=["StoppedIsFinal", "EventuallyStops"])
     ctx.tlc(d, "RefreshWorker", "RWMC_run.cfg", label="refresh-mc", timeout=1200)
 
+    # Development aid (mutation experiments): VERIF_STAGES=T runs only the
+    # trace-validation binding, VERIF_STAGES=G only generate-and-replay.
+    stages = set(os.environ.get("VERIF_STAGES", "MC,G,T").split(","))
+    if stages != {"MC", "G", "T"}:
+        ctx.extra["stages_only"] = sorted(stages)
+    if "G" in stages:
+        run_g(ctx, d, q)
+    if "T" in stages:
+        run_t(ctx, d, q)
+
+
+def run_g(ctx, d, q):
     # 2. generators.
     write_cfg(d / "SigGen_run.cfg", "SGSpec", sig_consts(3 if q else 4),
               invariants=["SEmit", "AtReturn", "ReverseOrder", "AtMostOnce"])
@@ -102,6 +115,8 @@ def run(ctx):
     ctx.extra["refresh_scenarios_replayed"] = s2["replayed"]
     ctx.extra["hang_retries"] = s1["hang_retries"] + s2["hang_retries"]
 
+
+def run_t(ctx, d, q):
     # 4. record random real runs, validate with TLC.
     ctx.vh(["c18", "record-signal", d / "signal_trace.ndjson", ctx.scratch / "sigrec.res", 300 if q else 3000])
     s3 = ctx.collect(ctx.scratch / "sigrec.res")
